@@ -100,6 +100,20 @@ theorem ric_stage_square (A P Q : Matrix n n α) (BJ : Matrix n m α) (RJJ : Mat
   simp only [bil_sub_left, bil_sub_right, a1, a2, a3, bil_add_mat]
   ring
 
+theorem transpose_mulVec_dot (B : Matrix n m α) (lam : n → α) (du : m → α) :
+    (Bᵀ *ᵥ lam) ⬝ᵥ du = lam ⬝ᵥ (B *ᵥ du) := by
+  rw [dotProduct_comm]
+  exact bil_transpose B lam du
+
+theorem terminal_expand (Q : Matrix n n α) (q : n → α) (hQ : Qᵀ = Q) (x dx : n → α) :
+    (1 / 2 * bil Q (x + dx) (x + dx) + q ⬝ᵥ (x + dx)) - (1 / 2 * bil Q x x + q ⬝ᵥ x)
+      = (Q *ᵥ x + q) ⬝ᵥ dx + 1 / 2 * bil Q dx dx := by
+  have h1 : bil Q dx x = bil Q x dx := bil_symm hQ dx x
+  have e1 : (Q *ᵥ x) ⬝ᵥ dx = bil Q x dx := by rw [← h1]; simp [bil, dotProduct_comm]
+  simp only [bil_add_left, bil_add_right, add_dotProduct, dotProduct_add, e1, h1]
+  field_simp
+  ring
+
 /-! ### lift to the stage records of the list model -/
 section stage
 variable (nx nu : Nat) (solveM : Mat α → Mat α → Mat α) (solveV : Mat α → Vec α → Vec α)
@@ -183,5 +197,301 @@ theorem stage_square_model (h : SolveOK nx nu solveM solveV d P s) (hP : SymM nx
   linear_combination this
 
 end stage
+
+/-! ### the masked QP, its feasible set, and optimality of the Riccati step -/
+section final
+variable (N nx nu : Nat) (solveM : Mat α → Mat α → Mat α) (solveV : Mat α → Vec α → Vec α)
+  (data : Nat → LQRStage α) (QN : Mat α) (qN : Vec α)
+
+/-- cost of the masked QP along `(X_t)_{t ≤ N}`, `(U_t)_{t < N}`:
+    `Σ_t [½xᵀQ_t x + uᵀS_t x + ½uᵀR_t u + q_tᵀx + r_tᵀu] + ½x_NᵀQ_N x_N + q_Nᵀx_N`. -/
+def qpCost (X : Nat → Fin nx → α) (U : Nat → Fin nu → α) : α :=
+  ∑ t ∈ Finset.range N,
+      qpStage (toM nx nx (data t).Q) (toM nu nu (data t).R) (toM nu nx (data t).S)
+        (toV nx (data t).q) (toV nu (data t).r) (X t) (U t)
+    + (1 / 2 * bil (toM nx nx QN) (X N) (X N) + toV nx qN ⬝ᵥ X N)
+
+/-- feasible set: `x₀ = 0`, linearised dynamics, fixed components at their prescribed values. -/
+structure QPFeasible (X : Nat → Fin nx → α) (U : Nat → Fin nu → α) : Prop where
+  x0 : X 0 = 0
+  dyn : ∀ t < N, X (t + 1) = toM nx nx (data t).A *ᵥ X t + toM nx nu (data t).B *ᵥ U t
+  fixed : ∀ t < N, ∀ k : Fin nu, (k : Nat) ∈ (data t).K → U t k = vget (data t).u k
+
+local notation "XS" => fun t => toV nx (ricDx N nx nu solveM solveV data QN qN t)
+local notation "US" => fun t => toV nu (ricDu N nx nu solveM solveV data QN qN t)
+local notation "LS" => fun t => toV nx (ricLam N nx nu solveM solveV data QN qN t)
+
+variable (hpart : ∀ i < N, ((data i).J ++ (data i).K).Perm (List.range nu))
+  (hQ : ∀ i < N, SymM nx (data i).Q) (hQN : SymM nx QN)
+  (hR : ∀ i < N, ∀ a < nu, ∀ b < nu, mget (data i).R a b = mget (data i).R b a)
+  (hsolve : ∀ i < N, SolveOK nx nu solveM solveV (data i)
+    (ricStg N nx nu solveM solveV data QN qN i).Pn (ricStg N nx nu solveM solveV data QN qN i).sn)
+
+include hpart in
+/-- the Riccati step is feasible -/
+theorem ric_feasible :
+    QPFeasible N nx nu data (XS) (US) := by
+  refine ⟨?_, ?_, ?_⟩
+  · ext a
+    simp only [ric_dx0, toV_mkV_apply, Pi.zero_apply]
+  · intro t ht
+    simp only [ric_dynamics N nx nu solveM solveV data QN qN t ht, toV_addV, toV_mulMV]
+  · intro t ht k hk
+    exact ric_fixed N nx nu solveM solveV data QN qN hpart t ht k hk
+
+include hpart hsolve in
+theorem kkt_stationary (t : Nat) (ht : t < N) (k : Fin nu) (hk : (k : Nat) ∈ (data t).J) :
+    (toM nu nu (data t).R *ᵥ (US) t + toM nu nx (data t).S *ᵥ (XS) t + toV nu (data t).r
+      + (toM nx nu (data t).B)ᵀ *ᵥ (LS) (t + 1)) k = 0 := by
+  have := ric_stationary N nx nu solveM solveV data QN qN hpart hsolve t ht k hk
+  have e : toV nu (addV nu (addV nu (addV nu
+      (mulMV nu nu (data t).R (ricDu N nx nu solveM solveV data QN qN t))
+      (mulMV nu nx (data t).S (ricDx N nx nu solveM solveV data QN qN t))) (data t).r)
+      (mulTV nu nx (data t).B (ricLam N nx nu solveM solveV data QN qN (t + 1)))) k = 0 := this
+  simpa [toV_addV, toV_mulMV, toV_mulTV] using e
+
+include hpart hQ hQN hR hsolve in
+theorem kkt_costate (t : Nat) (h0 : 0 < t) (ht : t < N) :
+    (LS) t = toM nx nx (data t).Q *ᵥ (XS) t + (toM nu nx (data t).S)ᵀ *ᵥ (US) t
+      + toV nx (data t).q + (toM nx nx (data t).A)ᵀ *ᵥ (LS) (t + 1) := by
+  have := congrArg (toV nx)
+    (ric_costate N nx nu solveM solveV data QN qN hpart hQ hQN hR hsolve t h0 ht)
+  simpa [toV_addV, toV_mulMV, toV_mulTV] using this
+
+theorem kkt_terminal (hN : N > 0) :
+    (LS) N = toM nx nx QN *ᵥ (XS) N + toV nx qN := by
+  have := congrArg (toV nx) (ric_terminal N nx nu solveM solveV data QN qN hN)
+  simpa [toV_addV, toV_mulMV] using this
+
+section optimal
+variable (X' : Nat → Fin nx → α) (U' : Nat → Fin nu → α)
+  (hf : QPFeasible N nx nu data X' U')
+  (hPSD : ∀ t < N, ∀ w : Fin (data t).J.length → α,
+    0 ≤ bil (toM (data t).J.length (data t).J.length
+      (ricStg N nx nu solveM solveV data QN qN t).Rbar) w w)
+
+local notation "DX" => fun t => X' t - (XS) t
+local notation "DU" => fun t => U' t - (US) t
+
+include hpart hf in
+theorem dir_props :
+    (DX) 0 = 0 ∧
+    (∀ t < N, (DX) (t + 1) = toM nx nx (data t).A *ᵥ (DX) t + toM nx nu (data t).B *ᵥ (DU) t) ∧
+    (∀ t < N, ∀ k : Fin nu, (k : Nat) ∈ (data t).K → (DU) t k = 0) := by
+  obtain ⟨r0, r1, r2⟩ := ric_feasible N nx nu solveM solveV data QN qN hpart
+  refine ⟨?_, ?_, ?_⟩
+  · simp only [hf.x0, r0, sub_self]
+  · intro t ht
+    simp only [hf.dyn t ht, r1 t ht, mulVec_sub]
+    abel
+  · intro t ht k hk
+    simp only [Pi.sub_apply, hf.fixed t ht k hk, r2 t ht k hk, sub_self]
+
+include hpart hsolve hf in
+/-- by stationarity in `J` and `δu = 0` on `K`: `⟨Ru + Sx + r, δu⟩ = −⟨Bᵀλ⁺, δu⟩` -/
+theorem lin_input (t : Nat) (ht : t < N) :
+    (toM nu nu (data t).R *ᵥ (US) t + toM nu nx (data t).S *ᵥ (XS) t + toV nu (data t).r)
+        ⬝ᵥ (DU) t
+      = -(((toM nx nu (data t).B)ᵀ *ᵥ (LS) (t + 1)) ⬝ᵥ (DU) t) := by
+  have hz := (dir_props N nx nu solveM solveV data QN qN hpart X' U' hf).2.2 t ht
+  have h0 : (toM nu nu (data t).R *ᵥ (US) t + toM nu nx (data t).S *ᵥ (XS) t + toV nu (data t).r
+      + (toM nx nu (data t).B)ᵀ *ᵥ (LS) (t + 1)) ⬝ᵥ (DU) t = 0 := by
+    unfold dotProduct
+    apply Finset.sum_eq_zero
+    intro k _
+    have hk : (k : Nat) ∈ (data t).J ++ (data t).K :=
+      (hpart t ht).mem_iff.mpr (List.mem_range.mpr k.2)
+    rcases List.mem_append.mp hk with hJ | hK
+    · rw [kkt_stationary N nx nu solveM solveV data QN qN hpart hsolve t ht k hJ, zero_mul]
+    · rw [hz k hK, mul_zero]
+  rw [add_dotProduct] at h0
+  linear_combination h0
+
+include hpart hQ hQN hR hsolve hf in
+/-- the linear part of `cost(z') − cost(z)` telescopes along the costates -/
+theorem lin_telescope : ∀ n ≤ N,
+    ∑ t ∈ Finset.range n,
+      ((toM nx nx (data t).Q *ᵥ (XS) t + (toM nu nx (data t).S)ᵀ *ᵥ (US) t + toV nx (data t).q)
+          ⬝ᵥ (DX) t
+        + (toM nu nu (data t).R *ᵥ (US) t + toM nu nx (data t).S *ᵥ (XS) t + toV nu (data t).r)
+          ⬝ᵥ (DU) t)
+      = -((LS) n ⬝ᵥ (DX) n) := by
+  obtain ⟨d0, d1, _⟩ := dir_props N nx nu solveM solveV data QN qN hpart X' U' hf
+  intro n
+  induction n with
+  | zero => intro _; simp only [Finset.range_zero, Finset.sum_empty, d0, dotProduct_zero, neg_zero]
+  | succ n ih =>
+    intro hn
+    have hnN : n < N := by omega
+    rw [Finset.sum_range_succ, ih (by omega),
+      lin_input N nx nu solveM solveV data QN qN hpart hsolve X' U' hf n hnN,
+      transpose_mulVec_dot, d1 n hnN]
+    by_cases h0 : n = 0
+    · subst h0
+      simp only [d0, dotProduct_zero, mulVec_zero, zero_add, neg_zero]
+    · rw [kkt_costate N nx nu solveM solveV data QN qN hpart hQ hQN hR hsolve n (by omega) hnN]
+      simp only [add_dotProduct, dotProduct_add, transpose_mulVec_dot]
+      ring
+
+include hpart hQ hQN hR hsolve hf hPSD in
+/-- the quadratic part is bounded below by the cost-to-go, which vanishes at `δx₀ = 0` -/
+theorem quad_lower : ∀ n, n < N →
+    0 ≤ ∑ t ∈ Finset.range (n + 1),
+          qpStage (toM nx nx (data t).Q) (toM nu nu (data t).R) (toM nu nx (data t).S) 0 0
+            ((DX) t) ((DU) t)
+        + 1 / 2 * bil (toM nx nx (ricStg N nx nu solveM solveV data QN qN n).Pn)
+            ((DX) (n + 1)) ((DX) (n + 1)) := by
+  obtain ⟨d0, d1, d2⟩ := dir_props N nx nu solveM solveV data QN qN hpart X' U' hf
+  intro n
+  induction n with
+  | zero =>
+    intro hN
+    have hs := hsolve 0 hN
+    have hsym := ric_symm N nx nu solveM solveV data QN qN hpart hQ hQN hR hsolve (N - 1) 0
+      (by omega)
+    have hps := hPSD 0 hN
+    obtain ⟨Pi, si, hPi, hsi, hrec⟩ : ∃ Pi si,
+        (ricStg N nx nu solveM solveV data QN qN 0).Pn = Pi ∧
+        (ricStg N nx nu solveM solveV data QN qN 0).sn = si ∧
+        ricStg N nx nu solveM solveV data QN qN 0 = ricRecord nx nu solveM solveV (data 0) Pi si :=
+      ⟨_, _, rfl, rfl, ric_records N nx nu solveM solveV data QN qN 0 hN⟩
+    rw [hPi] at hs hsym ⊢
+    rw [hsi] at hs
+    rw [hrec] at hps
+    have key := stage_square_model nx nu solveM solveV (data 0) Pi si (hpart 0 hN) hs hsym
+      (hR 0 hN) ((DX) 0) (fun k => if h : k < nu then (DU) 0 ⟨k, h⟩ else 0)
+      (by
+        intro k hk
+        have hlt := part_lt_K (hpart 0 hN) k hk
+        simp only [hlt, dif_pos]
+        exact d2 0 hN ⟨k, hlt⟩ hk)
+    have hu : (fun k : Fin nu => if h : (k : Nat) < nu then (DU) 0 ⟨k, h⟩ else 0) = (DU) 0 := by
+      ext k; simp [k.2]
+    rw [hu] at key
+    rw [Finset.sum_range_one, d1 0 hN, key]
+    have hw := hps ((fun b : Fin (data 0).J.length =>
+        (fun k => if h : k < nu then (DU) 0 ⟨k, h⟩ else 0) (iget (data 0).J b))
+      - toM (data 0).J.length nx (ricRecord nx nu solveM solveV (data 0) Pi si).gain *ᵥ (DX) 0)
+    have hz : bil (toM nx nx (ricNextP nx (data 0) Pi (ricRecord nx nu solveM solveV (data 0) Pi si)))
+        ((DX) 0) ((DX) 0) = 0 := by
+      simp only [d0, bil, zero_dotProduct]
+    rw [hz]
+    linarith
+  | succ n ih =>
+    intro hN
+    have hn := ih (by omega)
+    have hs := hsolve (n + 1) hN
+    have hsym := ric_symm N nx nu solveM solveV data QN qN hpart hQ hQN hR hsolve (N - 1 - (n + 1))
+      (n + 1) (by omega)
+    have hps := hPSD (n + 1) hN
+    have hch := (ric_chain N nx nu solveM solveV data QN qN n hN).1
+    obtain ⟨Pi, si, hPi, hsi, hrec⟩ : ∃ Pi si,
+        (ricStg N nx nu solveM solveV data QN qN (n + 1)).Pn = Pi ∧
+        (ricStg N nx nu solveM solveV data QN qN (n + 1)).sn = si ∧
+        ricStg N nx nu solveM solveV data QN qN (n + 1)
+          = ricRecord nx nu solveM solveV (data (n + 1)) Pi si :=
+      ⟨_, _, rfl, rfl, ric_records N nx nu solveM solveV data QN qN (n + 1) hN⟩
+    rw [hPi] at hs hsym hch ⊢
+    rw [hsi] at hs
+    rw [hrec] at hps hch
+    have key := stage_square_model nx nu solveM solveV (data (n + 1)) Pi si (hpart (n + 1) hN) hs
+      hsym (hR (n + 1) hN) ((DX) (n + 1)) (fun k => if h : k < nu then (DU) (n + 1) ⟨k, h⟩ else 0)
+      (by
+        intro k hk
+        have hlt := part_lt_K (hpart (n + 1) hN) k hk
+        simp only [hlt, dif_pos]
+        exact d2 (n + 1) hN ⟨k, hlt⟩ hk)
+    have hu : (fun k : Fin nu => if h : (k : Nat) < nu then (DU) (n + 1) ⟨k, h⟩ else 0)
+        = (DU) (n + 1) := by
+      ext k; simp [k.2]
+    rw [hu] at key
+    rw [Finset.sum_range_succ, d1 (n + 1) hN, add_assoc, key, ← hch]
+    have hw := hps ((fun b : Fin (data (n + 1)).J.length =>
+        (fun k => if h : k < nu then (DU) (n + 1) ⟨k, h⟩ else 0) (iget (data (n + 1)).J b))
+      - toM (data (n + 1)).J.length nx
+          (ricRecord nx nu solveM solveV (data (n + 1)) Pi si).gain *ᵥ (DX) (n + 1))
+    linarith
+
+include hpart hQ hQN hR hsolve hf hPSD in
+/-- **optimality**: no feasible point of the masked QP is cheaper than the Riccati step -/
+theorem ric_optimal :
+    qpCost N nx nu data QN qN (XS) (US) ≤ qpCost N nx nu data QN qN X' U' := by
+  obtain ⟨d0, _, _⟩ := dir_props N nx nu solveM solveV data QN qN hpart X' U' hf
+  have hQs : ∀ t < N, (toM nx nx (data t).Q)ᵀ = toM nx nx (data t).Q := fun t ht => hQ t ht
+  have hRs : ∀ t < N, (toM nu nu (data t).R)ᵀ = toM nu nu (data t).R := by
+    intro t ht; ext a b
+    rw [Matrix.transpose_apply]; exact hR t ht _ b.2 _ a.2
+  -- split the difference into its linear and quadratic parts
+  have hX : ∀ t, X' t = (XS) t + (DX) t := fun t => by simp
+  have hU : ∀ t, U' t = (US) t + (DU) t := fun t => by simp
+  have hdiff : qpCost N nx nu data QN qN X' U' - qpCost N nx nu data QN qN (XS) (US)
+      = ∑ t ∈ Finset.range N,
+          ((toM nx nx (data t).Q *ᵥ (XS) t + (toM nu nx (data t).S)ᵀ *ᵥ (US) t + toV nx (data t).q)
+              ⬝ᵥ (DX) t
+            + (toM nu nu (data t).R *ᵥ (US) t + toM nu nx (data t).S *ᵥ (XS) t + toV nu (data t).r)
+              ⬝ᵥ (DU) t)
+        + (toM nx nx QN *ᵥ (XS) N + toV nx qN) ⬝ᵥ (DX) N
+        + (∑ t ∈ Finset.range N,
+            qpStage (toM nx nx (data t).Q) (toM nu nu (data t).R) (toM nu nx (data t).S) 0 0
+              ((DX) t) ((DU) t)
+          + 1 / 2 * bil (toM nx nx QN) ((DX) N) ((DX) N)) := by
+    unfold qpCost
+    have hsum : ∑ t ∈ Finset.range N,
+          qpStage (toM nx nx (data t).Q) (toM nu nu (data t).R) (toM nu nx (data t).S)
+            (toV nx (data t).q) (toV nu (data t).r) (X' t) (U' t)
+        - ∑ t ∈ Finset.range N,
+          qpStage (toM nx nx (data t).Q) (toM nu nu (data t).R) (toM nu nx (data t).S)
+            (toV nx (data t).q) (toV nu (data t).r) ((XS) t) ((US) t)
+        = ∑ t ∈ Finset.range N,
+          (((toM nx nx (data t).Q *ᵥ (XS) t + (toM nu nx (data t).S)ᵀ *ᵥ (US) t
+                + toV nx (data t).q) ⬝ᵥ (DX) t
+            + (toM nu nu (data t).R *ᵥ (US) t + toM nu nx (data t).S *ᵥ (XS) t
+                + toV nu (data t).r) ⬝ᵥ (DU) t)
+            + qpStage (toM nx nx (data t).Q) (toM nu nu (data t).R) (toM nu nx (data t).S) 0 0
+                ((DX) t) ((DU) t)) := by
+      rw [← Finset.sum_sub_distrib]
+      apply Finset.sum_congr rfl
+      intro t ht
+      have htN := Finset.mem_range.mp ht
+      rw [hX t, hU t]
+      exact qpStage_expand _ _ _ _ _ (hQs t htN) (hRs t htN) _ _ _ _
+    have hterm := terminal_expand (toM nx nx QN) (toV nx qN) hQN ((XS) N) ((DX) N)
+    rw [← hX N] at hterm
+    rw [Finset.sum_add_distrib] at hsum
+    linear_combination hsum + hterm
+  have hlin := lin_telescope N nx nu solveM solveV data QN qN hpart hQ hQN hR hsolve X' U' hf N
+    (Nat.le_refl N)
+  by_cases hN : N = 0
+  · have hDN : (DX) N = 0 := by
+      have e : (DX) N = (DX) 0 := by simp only [hN]
+      rw [e]; exact d0
+    have hr : Finset.range N = ∅ := by simp only [hN, Finset.range_zero]
+    have : qpCost N nx nu data QN qN X' U' - qpCost N nx nu data QN qN (XS) (US) = 0 := by
+      rw [hdiff, hr]
+      simp only [Finset.sum_empty, hDN, dotProduct_zero, bil, zero_dotProduct, mul_zero, add_zero]
+    linarith
+  · have hNpos : N > 0 := Nat.pos_of_ne_zero hN
+    have hq := quad_lower N nx nu solveM solveV data QN qN hpart hQ hQN hR hsolve X' U' hf hPSD
+      (N - 1) (by omega)
+    rw [show N - 1 + 1 = N by omega] at hq
+    have htop := (ric_top N nx nu solveM solveV data QN qN hNpos).1
+    have hPN : toM nx nx (ricStg N nx nu solveM solveV data QN qN (N - 1)).Pn = toM nx nx QN := by
+      rw [htop]; ext a b
+      rw [toM_addM, Matrix.add_apply, toM_mkM_apply, zero_add]
+    rw [hPN] at hq
+    have hterm := kkt_terminal N nx nu solveM solveV data QN qN hNpos
+    have hl : ∑ t ∈ Finset.range N,
+          ((toM nx nx (data t).Q *ᵥ (XS) t + (toM nu nx (data t).S)ᵀ *ᵥ (US) t + toV nx (data t).q)
+              ⬝ᵥ (DX) t
+            + (toM nu nu (data t).R *ᵥ (US) t + toM nu nx (data t).S *ᵥ (XS) t + toV nu (data t).r)
+              ⬝ᵥ (DU) t)
+        + (toM nx nx QN *ᵥ (XS) N + toV nx qN) ⬝ᵥ (DX) N = 0 := by
+      rw [hlin, ← hterm]; ring
+    rw [hl, zero_add] at hdiff
+    linarith
+
+end optimal
+
+end final
 
 end Alpaqa.C12
